@@ -321,30 +321,8 @@ namespace smt
 
     SMT_EXPORT std::pair<inf_rational, inf_rational> rdl_theory::distance(const lin &from, const lin &to) const
     {
-        lin expr = from - to;
-        switch (expr.vars.size())
-        {
-        case 0:
-            return std::make_pair(inf_rational(expr.known_term), inf_rational(expr.known_term));
-        case 1:
-        {
-            expr = expr / expr.vars.cbegin()->second;
-            return distance(expr.vars.cbegin()->first, 0);
-        }
-        case 2:
-        {
-            expr = expr / expr.vars.cbegin()->second;
-            auto it = expr.vars.cbegin();
-            const auto [v0, c0] = *it++;
-            assert(c0 == rational::ONE);
-            const auto [v1, c1] = *it;
-            if (c1 != -rational::ONE)
-                throw std::invalid_argument("not a valid real difference logic constraint..");
-            return distance(v0, v1);
-        }
-        default:
-            throw std::invalid_argument("not a valid real difference logic constraint..");
-        }
+        // the distance from 'from' to 'to' is the interval of values that 'to - from' can take..
+        return bounds(to - from);
     }
 
     SMT_EXPORT bool rdl_theory::equates(const lin &l0, const lin &l1) const
@@ -363,9 +341,9 @@ namespace smt
         }
         else if (l0.vars.size() == 1 && l1.vars.size() == 1)
         {
-            const auto [lb, ub] = distance(l0.vars.cbegin()->first, l1.vars.cbegin()->first);
-            const auto kt = l0.known_term - l1.known_term;
-            return lb + kt <= 0 && ub + kt >= 0;
+            // the expressions can be equal iff zero is among the values that 'l0 - l1' can take..
+            const auto [lb, ub] = bounds(l0 - l1);
+            return lb <= 0 && ub >= 0;
         }
         else
             throw std::invalid_argument("not a valid comparison between real difference logic expressions..");
